@@ -161,3 +161,36 @@ def blocks_reachable_from(fn, starts):
                 seen.add(s)
                 work.append(s)
     return seen
+
+
+def require_on_success_alt(rep, rid, ctx, fn, alternatives, env=None, leaf_filter=None):
+    """Every way fn returns non-zero must satisfy one alternative.
+    alternatives: list of (name, leafpat_or_None, [(factname, factpat), ...]).
+    leafpat constrains the returned leaf value (e.g. a call, or the constant 1)."""
+    F = ctx.facts(fn)
+    M = Matcher(fn)
+    ses = success_edges(F, fn)
+    if not ses:
+        rep.broken(rid, "%s has no successful return" % fn.cname)
+        return
+    for v, pb, b in ses:
+        fs = facts_for_success(F, fn, v, pb, b)
+        chosen = None
+        why = []
+        for name, leafpat, pats in alternatives:
+            if leafpat is not None and M.match(leafpat, v, dict(env or {})) is None:
+                why.append("%s: returned value %s is not of the expected form" % (name, describe(fn, v)))
+                continue
+            missing = [n for n, p in pats if M.find_fact(p, fs, env)[0] is None]
+            if missing:
+                why.append("%s: missing %s" % (name, missing))
+                continue
+            chosen = name
+            break
+        inst = "%s: non-zero return %s via bb%s" % (fn.cname, describe(fn, v), pb if pb is not None else b)
+        where = "%s:%s" % (fn.file, fn.blocks[pb if pb is not None else b].term.line())
+        if chosen:
+            rep.ok(rid, inst, "alternative: " + chosen, where)
+        else:
+            rep.violation(rid, inst, where, "no admissible reason for this successful return: %s; facts: %s" % (
+                why, sorted({describe_fact(fn, x) for x in fs})[:10]), function=fn.cname, obj="return:%s" % describe(fn, v, 1))
